@@ -3,6 +3,7 @@
    Print Assumptions.  GENERATED skeleton (tools/mkprops.py), statements are the ones Coq prints for the lemmas. *)
 From Coq Require Import ZArith List Bool String Reals.
 From VQ Require Import Num Model.Vec Model.Core Model.Machine Model.Inventory Proofs.CoreKmeans Proofs.CorePure Glue.CoreGlue Glue.Pin_p_kmeans Glue.Pin_inv_euclid Glue.Pin_inv_cosine.
+From VQ Require Import Glue.Pin_fp_C14.
 Import ListNotations.
 Open Scope R_scope.
 
@@ -138,3 +139,8 @@ Theorem C14_initted_is_persistent_cosine :
   inv_cosine.inv_cosine = pinned_inv_cosine.
 Proof. exact (@pin_inv_cosine). Qed.
 Print Assumptions C14_initted_is_persistent_cosine.
+
+Theorem C14_tie_source_footprint :
+  fp_C14.fp_C14 = pinned_fp_C14.
+Proof. exact (@Pin_fp_C14.pin_fp_C14). Qed.
+Print Assumptions C14_tie_source_footprint.
